@@ -495,6 +495,9 @@ func (r *Run) Finish(cov Coverage) {
 		vs[s] = n
 	}
 	coverage["violation_signatures"] = vs
+	if cov.Assumptions == nil {
+		cov.Assumptions = []string{}
+	}
 	ev := map[string]interface{}{
 		"property_id": r.ID, "tier": r.Tier, "seed": r.Seed, "level": r.Level,
 		"coverage": coverage, "assumptions": cov.Assumptions,
@@ -503,7 +506,11 @@ func (r *Run) Finish(cov Coverage) {
 	}
 	b, _ := json.MarshalIndent(ev, "", " ")
 	os.MkdirAll(filepath.Join(OutRoot(), "evidence"), 0755)
-	ioutil.WriteFile(filepath.Join(OutRoot(), "evidence", r.ID+".json"), b, 0644)
+	evName := r.ID + ".json"
+	if ReplayArg() != "" { // a replay never replaces the evidence of a real run
+		evName = r.ID + ".replay.json"
+	}
+	ioutil.WriteFile(filepath.Join(OutRoot(), "evidence", evName), b, 0644)
 
 	fmt.Printf("%s %s seed=%d: evaluations=%d distinct_nontrivial=%d violations(new)=%d known=%d inconclusive=%d wall=%.1fs\n",
 		r.ID, r.Tier, r.Seed, cov.Evaluations, cov.DistinctNontrivial, newV, len(printedKnown), len(r.inconcl), time.Since(r.start).Seconds())
